@@ -187,6 +187,17 @@ func init() {
 			s := h.senders[idx]
 			pt := cloneVals(a[2].slice())
 			ct := p.freshBytes(len(pt)+16, "ct")
+			// ideal AEAD: two seals (distinct nonce or key) never yield the same ciphertext+tag
+			for _, prev := range h.seals {
+				if len(prev.ct) != len(ct) {
+					continue
+				}
+				ne := p.ts.False
+				for i := range ct {
+					ne = p.ts.Or(ne, p.ts.Not(p.ts.Eq(ct[i].term(), prev.ct[i].term())))
+				}
+				p.assert(ne)
+			}
 			h.seals = append(h.seals, &hpkeSeal{s: s, seq: s.seq, aad: cloneVals(a[1].slice()), ct: ct, pt: pt})
 			s.seq++
 			return mkSlice(cloneVals(ct)), true
